@@ -24,10 +24,14 @@
 EXTENDS Integers, Sequences, FiniteSets, TLC
 
 CONSTANTS KIND,   \* "UNORDERED" | "ORDERED" | "V2"
-          TP      \* trusting period of both light clients, in ticks (1 tick = 500 ms)
+          TP,     \* trusting period of both light clients, in ticks (1 tick = 500 ms)
+          SKEW_A, \* clock skew of chain A: its block times are the global time + SKEW_A ticks
+          SKEW_B  \* clock skew of chain B (the chains' clocks need not agree; only each chain's own is monotone)
 
 Chains == {"A", "B"}
 Cp(c)  == IF c = "A" THEN "B" ELSE "A"
+Skew(c) == IF c = "A" THEN SKEW_A ELSE SKEW_B
+DRIFT == 20       \* max clock drift of the light clients (10 s)
 
 MaxOf(X) == CHOOSE x \in X : \A y \in X : y <= x
 MinOf(X) == CHOOSE x \in X : \A y \in X : x <= y
@@ -88,7 +92,7 @@ InitProv == [chan |-> IF KIND = "V2" THEN "NONE" ELSE "OPEN",
              commit |-> EmptyFn, receipt |-> {}, ack |-> EmptyFn, async |-> {}]
 
 \* After the harness' set-up: A is one block ahead of what B's client knows.
-InitChain(h0) == [h |-> h0, bt |-> [p \in 0..h0 |-> p + 1], hist |-> [p \in 0..h0 |-> InitProv],
+InitChain(h0) == [h |-> h0, bt |-> [p \in 0..h0 |-> p + 1],   \* (MC runs use SKEW = 0) hist |-> [p \in 0..h0 |-> InitProv],
                   cur |-> InitProv, cons |-> {0}, frozen |-> FALSE, log |-> <<>>, app |-> {}]
 
 InitState == [now |-> 2, ch |-> [c \in Chains |-> InitChain(1)]]
@@ -123,7 +127,7 @@ Commit(S, c, t, cur2, cons2, frozen2, log2) ==
                 bt |-> [p \in 0..h2 |-> IF p = h2 THEN t ELSE cs.bt[p]],
                 hist |-> [p \in 0..h2 |-> IF p = h2 THEN cs.cur ELSE cs.hist[p]],
                 cur |-> cur2, cons |-> cons2, frozen |-> frozen2, log |-> log2, app |-> cs.app]
-    IN [now |-> t, ch |-> [S.ch EXCEPT ![c] = cs2]]
+    IN [now |-> t - Skew(c), ch |-> [S.ch EXCEPT ![c] = cs2]]     \* t is c's local block time
 
 \* application state of chain c extended by the given writes
 AddApp(S2, c, writes) == [S2 EXCEPT !.ch[c].app = @ \cup writes]
@@ -145,6 +149,7 @@ UpdateGuard(S, c, p, t) ==
     /\ p >= 1 /\ p <= S.ch[Cp(c)].h
     /\ Trusted(S, c, p) # {}
     /\ CpTime(S, c, MaxOf(Trusted(S, c, p))) + TP > t     \* trusted state not expired
+    /\ CpTime(S, c, p) <= t + DRIFT                        \* header not from the future (beyond the drift)
 
 DoUpdate(S, c, a, t) ==
     IF ~UpdateGuard(S, c, a.p, t) THEN Err(S, c, t)
@@ -174,7 +179,7 @@ SendV1Guard(S, c, a, t) ==
 SendV2Guard(S, c, a, t) ==
     /\ KIND \in {"UNORDERED", "V2"}
     /\ Len(a.data) >= 1
-    /\ 2 * a.toT > t                       \* timeout strictly after the block time
+    /\ 2 * a.toT > t                       \* timeout strictly after the (own) block time
     /\ 2 * a.toT <= t + DAY_TICKS          \* at most 24 h ahead
     /\ G_ClientActive(S, c, t)
     /\ ~ElapsedV2(a.toT, CpTime(S, c, Latest(S, c)))
@@ -382,7 +387,7 @@ DoExportImport(S, c, a, t) == Ok(NoChange(S, c, t))
 (* Step: action record a = [a |-> name, c |-> chain, dt |-> 1.., ...]      *)
 (***************************************************************************)
 Step(S, a) ==
-    LET c == a.c  t == S.now + a.dt IN
+    LET c == a.c  t == S.now + a.dt + Skew(c) IN      \* local block time of the acting chain
     CASE a.a = "Block"          -> DoBlock(S, c, a, t)
       [] a.a = "Update"         -> DoUpdate(S, c, a, t)
       [] a.a = "Freeze"         -> DoFreeze(S, c, a, t)
